@@ -18,6 +18,25 @@ def analysis(c):
     return _cache[k]
 
 
+def analysis_closed(c):
+    """second analysis in which exported functions also get parameter summaries from their in-crate call sites
+    (used only to separate reply-driven from caller-driven allocation sizes)"""
+    k = ("ancw", id(c))
+    if k not in _cache:
+        _cache[k] = ledger.Analysis(c, closed_world=True)
+    return _cache[k]
+
+
+def reachable_fns(c):
+    """local bodies reachable from the crate's exported functions"""
+    k = ("reach", id(c))
+    if k not in _cache:
+        g = callgraph(c)
+        roots = [f["path"] for f in c.fns if f.get("exported") or f.get("reachable")]
+        _cache[k] = g.reachable_from(roots)
+    return _cache[k]
+
+
 def callgraph(c):
     k = ("cg", id(c))
     if k not in _cache:
@@ -128,9 +147,11 @@ def check_anchor(c, anchor, site, ctx):
     if t == "fn-calls":
         # the enclosing function (or a named one) contains a call to `callee`
         path = ctx["fnp"][site.fn] if "fn" not in anchor else [f["path"] for f in c.fns if S.fn_display(f).endswith(anchor["fn"])][0]
-        for (cp, bi, tt) in g.callees(path):
-            if tt is not None and callee_key(tt["fn"]).split("@")[0].endswith(anchor["callee"]):
-                return True, "%s calls %s" % (anchor.get("fn", site.fn), anchor["callee"])
+        base = path.split("::{closure")[0]
+        for pth in [p for p in g.edges if p == base or p.startswith(base + "::{closure")]:
+            for (cp, bi, tt) in g.callees(pth):
+                if tt is not None and callee_key(tt["fn"]).split("@")[0].endswith(anchor["callee"]):
+                    return True, "%s calls %s" % (anchor.get("fn", site.fn), anchor["callee"])
         return False, "%s no longer calls %s" % (anchor.get("fn", site.fn), anchor["callee"])
     return False, "unknown anchor type %s" % t
 
@@ -163,7 +184,20 @@ def ledger_obligations(rep, c, prop, want, kinds=("assert", "call"), rules=None,
         r = res.get(s.key)
         if s.kind == "alloc":
             cls, bound, detail = r if r else ("UNBOUNDED", None, "function could not be analysed")
-            ok = cls in ("CONST", "TYPE", "LEN")
+            if cls == "UNBOUNDED":
+                f0 = c.fn(fnp[s.fn])
+                if f0 is not None and f0.get("exported"):
+                    # size comes from a parameter of a public function: bounded if every in-crate caller passes a bounded value
+                    acw = analysis_closed(c)
+                    it2 = acw.interp(fnp[s.fn])
+                    st2 = it2.state_before_term(s.bb) if it2 else None
+                    if st2 is not None:
+                        r2 = ledger.classify_alloc(s, it2, st2)
+                        if r2[0] in ("CONST", "TYPE", "LEN"):
+                            cls, bound, detail = "PARAM", r2[1], "caller-supplied size; every in-crate call site passes a bounded value: " + r2[2]
+                if cls == "UNBOUNDED" and fnp[s.fn] not in reachable_fns(c):
+                    cls, detail = "UNREACHABLE", "function is not reachable from any public entry point (dead code): " + detail
+            ok = cls in ("CONST", "TYPE", "LEN", "PARAM", "UNREACHABLE")
             rule = "E3:" + cls
             if ok:
                 rep.add(s.key, rule, True, detail, s.at, nontrivial=(cls != "CONST"))
